@@ -505,6 +505,20 @@ fn run(plan: &Plan, w: &mut World, patch: &mut Option<serde_json::Value>) -> R<O
                 w.probe("compact");
             }
             WOp::Reopen => {
+                // what the collector still has queued (evictions, removals of frames the
+                // observations found expired) is worked off first, one task at a time and each
+                // its own acknowledged step: a collector pass is not one atomic operation
+                loop {
+                    let en: Vec<_> = w.ctrl.enabled().into_iter().filter(|e| e.actor_kind == "gc").collect();
+                    let Some(e) = en.first() else { break };
+                    if let crate::ctrl::EnabledKind::Os(ix) = e.kind {
+                        w.ctrl.release_os(ix).map_err(Stop::Harness)?;
+                        w.probe("gc:step");
+                    }
+                    boundaries.push(simdisk::log_len());
+                    clocks.push(w.ctrl.now());
+                    obs.push(observe(&store, &uni));
+                }
                 // clean close inside the recording, then recovery on the same directory
                 store.verif_shutdown();
                 w.run_kind_until_idle("gc", 100_000)?;
